@@ -156,11 +156,19 @@ func main() {
 		"VERIF_ROOT="+root)
 
 	known := loadKnown(id)
+	// replays of schedule-dependent properties need the race worker and its environment
+	replayEnv := []string{}
+	for _, j := range cfg.Jobs {
+		if j.Race {
+			replayEnv = append(append(replayEnv, "VERIF_WORKER="+workerRace), j.Env...)
+			break
+		}
+	}
 
 	// ---- explicit replay
 	if replay != "" {
 		abs, _ := filepath.Abs(replay)
-		out, _ := runTest(baseEnv, testBin, outDir, "replay", 0, 1, "^TestReplay$", 0, 0, []string{"VERIF_REPLAY=" + abs}, 10*time.Minute)
+		out, _ := runTest(baseEnv, testBin, outDir, "replay", 0, 1, "^TestReplay$", 0, 0, append([]string{"VERIF_REPLAY=" + abs}, replayEnv...), 10*time.Minute)
 		fmt.Print(out.log)
 		if strings.Contains(out.log, "VERIF-REPLAY fail") {
 			fmt.Printf("VIOLATION property=%s replay=%s\n", id, abs)
@@ -185,7 +193,7 @@ func main() {
 			}
 		}
 		if len(files) > 0 {
-			res, _ := runTest(baseEnv, testBin, outDir, "replay", 0, 1, "^TestReplay$", 0, 0, []string{"VERIF_REPLAY=" + strings.Join(files, ",")}, 20*time.Minute)
+			res, _ := runTest(baseEnv, testBin, outDir, "replay", 0, 1, "^TestReplay$", 0, 0, append([]string{"VERIF_REPLAY=" + strings.Join(files, ",")}, replayEnv...), 20*time.Minute)
 			for _, k := range known {
 				if k.Replay == "" {
 					continue
